@@ -322,6 +322,17 @@ def _validators(ctx, repo):
         ctx.decide("avp.data.decode(" in src or "avp.data ==" in src, "R-DEP/peer-identity", f"{pdm.qual}.{vname}", pdm.where(fn),
                    "the compared value is the AVP's data", "the compared value is not derived from the AVP's data", key="data_src",
                    nontrivial=False)
+        # ... decoded faithfully: a lossy error handler makes distinct identities compare equal
+        lossy = [c for c in walk_no_nested(fn) if isinstance(c, ast.Call) and isinstance(c.func, ast.Attribute) and c.func.attr == "decode"
+                 and ast.unparse(c.func.value).endswith(".data")
+                 and any(k.arg == "errors" and isinstance(k.value, ast.Constant) and k.value.value == "ignore" for k in c.keywords)
+                 or (isinstance(c, ast.Call) and isinstance(c.func, ast.Attribute) and c.func.attr == "decode" and len(c.args) > 1
+                     and isinstance(c.args[1], ast.Constant) and c.args[1].value == "ignore")]
+        ctx.decide(not lossy, "R-DEP/peer-identity", f"{pdm.qual}.{vname}", pdm.where(lossy[0] if lossy else fn),
+                   "the AVP's octets are decoded without dropping any of them",
+                   "the AVP's data is decoded with errors='ignore': octets that are not valid UTF-8 are dropped, so an identity that "
+                   "differs from the configured peer only by such octets is accepted and the machine opens for another peer",
+                   key="lossy_decode")
     for cname, need in (("ProcessCapabilityExchange", ("is_valid_origin_host_avp", "is_valid_origin_realm_avp")),
                         ("ProcessDeviceWatchdog", ("is_valid_origin_host_avp", "is_valid_origin_realm_avp")),
                         ("ProcessDisconnectPeer", ("is_valid_origin_host_avp", "is_valid_origin_realm_avp"))):
